@@ -23,18 +23,21 @@ Record part := Part {
   ptbl : table;                  (* TxParticipant.locks *)
   store : list (N * N);          (* TensorStore: key -> value *)
   ptmo : N;                      (* locks.default_timeout in ms *)
-  dirty : list N                 (* GHOST: prepared txs one of whose keys was written by another tx's commit since their prepare *)
+  dirty : list N;                (* GHOST: prepared txs one of whose keys was written by another tx's commit since their prepare *)
+  decidedp : list N              (* TxParticipant.decided: transactions already committed or aborted on this shard *)
 }.
-Definition part_init (st0 : list (N * N)) (tmo0 : N) : part := Part [] empty st0 tmo0 [].
+Definition part_init (st0 : list (N * N)) (tmo0 : N) : part := Part [] empty st0 tmo0 [] [].
 
 Definition capture (st : list (N * N)) (o : pop) : N * option N := (pop_key o, aget st (pop_key o)).
 
-(* TxParticipant::prepare: lock, capture undo images; the store is NOT touched *)
+(* TxParticipant::prepare: a transaction already decided here is refused (PrepareVote::No, written VConflict 0: no
+   transaction has id 0); otherwise lock, capture undo images; the store is NOT touched *)
 Definition p_prepare (now h : N) (p : part) (tx : N) (ops : list pop) : part * vote :=
+  if mem tx (decidedp p) then (p, VConflict 0) else
   match try_lock now tx h (ptmo p) (map pop_key ops) (ptbl p) with
   | (t', inl _) =>
       (Part (aset (prepared p) tx (Prep h ops (map (capture (store p)) ops))) t' (store p) (ptmo p)
-            (set_remove tx (dirty p)),
+            (set_remove tx (dirty p)) (decidedp p),
        VYes h)
   | (_, inr o) => (p, VConflict o)
   end.
@@ -56,7 +59,7 @@ Definition p_commit (p : part) (tx : N) : part * bool :=
   | Some e =>
       let rest := adel (prepared p) tx in
       (Part rest (release_by_handle (p_handle e) (ptbl p)) (fold_left apply_op (p_ops e) (store p)) (ptmo p)
-            (mark (p_ops e) rest (set_remove tx (dirty p))),
+            (mark (p_ops e) rest (set_remove tx (dirty p))) (set_add tx (decidedp p)),
        true)
   | None => (p, false)
   end.
@@ -70,7 +73,9 @@ Definition p_abort (p : part) (tx : N) : part :=
            (* an abort of a dirty tx may rewrite its keys: whoever shares them becomes dirty too *)
            (if mem tx (dirty p) then mark (p_ops e) (adel (prepared p) tx) (set_remove tx (dirty p))
             else set_remove tx (dirty p))
-  | None => p
+           (set_add tx (decidedp p))
+  (* remembered even if nothing was prepared: the abort may have overtaken the Prepare *)
+  | None => Part (prepared p) (ptbl p) (store p) (ptmo p) (dirty p) (set_add tx (decidedp p))
   end.
 
 (* ------------------------------------------------------------------ coordinator *)
